@@ -297,10 +297,8 @@ static void shape_some(gr_face *f, Rng &r, const std::vector<std::vector<uint32_
             for (auto &m : sr.c04) { (void)m; st.add("xobs_c04"); }
             for (auto &m : sr.c05) { (void)m; st.add("xobs_c05"); }
             std::string d = dump_seg(s, f, fo);
-            if (order.size() >= 2 && r.chance(0.3)) {
-                LIBV(gr_slot_linebreak_before(const_cast<gr_slot *>(order[order.size() / 2])));
-                LIB(gr_seg_justify(s, order[0], fo, 2000.0, gr_justCompleteLine, nullptr, nullptr));
-            }
+            // (line break only; gr_seg_justify on mutated justification attributes is C19's subject - known finding KF-C19-3)
+            if (order.size() >= 2 && r.chance(0.3)) LIBV(gr_slot_linebreak_before(const_cast<gr_slot *>(order[order.size() / 2])));
             st.add("segments_returned");
             // histories: destroy now, or later in a random ownership-respecting order (the face goes last)
             if (r.chance(0.5)) LIBV(gr_seg_destroy(s)); else deferred.push_back({0, s});
